@@ -103,7 +103,7 @@ impl Sim for FetcherSim {
             id: "C08",
             level: "exploration",
             modes: vec!["nofault", "fault"],
-            quick_runs: 100_000,
+            quick_runs: 60_000,
             thorough_runs: 4_000_000,
             rule: "One run = one seeded plan over a universe of 5..120 keys (chunk / scratchpad / register-or-transaction with several content versions) and 1..4 holders: single-key and multi-key advertisement lists with overlaps, re-advertisements and disagreeing versions, arrivals in chosen order (stored / store full / store error / stored after eviction), early completions, puts by other paths, range and farthest-on-full updates, next_keys_to_fetch calls, event deliveries and simulated-time advances (mode fault: dead holders, advances beyond FETCH_TIMEOUT and PENDING_TIMEOUT, late arrivals, spurious completions, range shrinkage and evictions while fetches are in flight; mode nofault: every holder answers and no timer expires), followed by a bounded-liveness phase (deliver, advance 25 s, re-advertise). Every returned list, both fetcher sets and every event are checked against oracle clauses (a)-(h) and a tracking model in simulated time. Non-trivial = >=3 operations and (>=1 fired fault or >=1 arrival/delivery order that differs from FIFO); distinct = distinct fingerprint of the executed sequence of resolved choices and faults.",
             assumptions: vec![
